@@ -39,6 +39,12 @@ type negoScn struct {
 	Compression int    `json:"compression"` // != 0: rewrite ServerHello compression method
 	PskIndex    int    `json:"psk_index"`   // != 0: add/overwrite pre_shared_key selected identity in the ServerHello (value-1)
 	HRRGroup    int    `json:"hrr_group"`   // != 0: rewrite the group named by the HelloRetryRequest
+	// application settings (ALPS): the server adds the extension (code point AlpsCP, body AlpsSettings) to its
+	// EncryptedExtensions (or, with Alps12, to a TLS 1.2 ServerHello) and reads the client's EncryptedExtensions
+	AlpsCP       int    `json:"alps_cp"`
+	Alps12       bool   `json:"alps12"`
+	AlpsSettings []int  `json:"alps_settings"`
+	ClientAlps   string `json:"client_alps"` // "has": {"h2": "CLNT"}, "lacks": {"zz": "X"}, "empty": {}, "": nil
 	// client options
 	Omit      bool  `json:"omit"`
 	RemoveSNI bool  `json:"remove_sni"`
@@ -131,6 +137,33 @@ func rewriteServerHello(d []byte, s *negoScn, isHRR bool) []byte {
 	return out
 }
 
+// appendExtension adds one extension to a marshaled ServerHello (type 2) or EncryptedExtensions (type 8) message.
+func appendExtension(d []byte, typ int, body []byte) []byte {
+	out := append([]byte{}, d...)
+	ext := append([]byte{byte(typ >> 8), byte(typ), byte(len(body) >> 8), byte(len(body))}, body...)
+	var lenOff int
+	switch d[0] {
+	case 8:
+		lenOff = 4
+	case 2:
+		lenOff = 4 + 2 + 32 + 1 + int(d[38]) + 2 + 1
+		if lenOff == len(out) { // no extensions block yet
+			out = append(out, 0, 0)
+		}
+	default:
+		return d
+	}
+	if lenOff+2 > len(out) {
+		return d
+	}
+	el := int(out[lenOff])<<8 | int(out[lenOff+1]) + len(ext)
+	out[lenOff], out[lenOff+1] = byte(el>>8), byte(el)
+	out = append(out, ext...)
+	n := len(out) - 4
+	out[1], out[2], out[3] = byte(n>>16), byte(n>>8), byte(n)
+	return out
+}
+
 var hrrRandom = []byte{0xCF, 0x21, 0xAD, 0x74, 0xE5, 0x9A, 0x61, 0x11, 0xBE, 0x1D, 0x8C, 0x02, 0x1E, 0x65, 0xB8, 0x91,
 	0xC2, 0xA2, 0x11, 0x16, 0x7A, 0xBB, 0x8C, 0x5E, 0x07, 0x9E, 0x09, 0xE2, 0xC8, 0xA8, 0x33, 0x9C}
 
@@ -209,6 +242,9 @@ func runNego(s negoScn, rawScn json.RawMessage, pk *hlib.PKI, certs map[string]t
 				d = rewriteServerHello(d, &s, hrr)
 			}
 		}
+		if s.AlpsCP != 0 && ((d[0] == 8 && !s.Alps12) || (d[0] == 2 && s.Alps12 && !isHRRMsg(d))) {
+			d = appendExtension(d, s.AlpsCP, hlib.Unints(s.AlpsSettings))
+		}
 		raw := d
 		if len(raw) > 600 && (d[0] == 11 || d[0] == 25 || d[0] == 4) {
 			raw = raw[:600] // certificates etc.: the head is enough for the specification
@@ -217,10 +253,24 @@ func runNego(s negoScn, rawScn json.RawMessage, pk *hlib.PKI, certs map[string]t
 		return d
 	}
 	useOv = true
+	if s.AlpsCP != 0 && !s.Alps12 {
+		// the server must read the client's EncryptedExtensions before the client Finished; with
+		// RequestClientCert it does not pre-compute the client Finished right after its own flight
+		ov.ReadClientEE = true
+		scfg.ClientAuth = tls.RequestClientCert
+	}
 	if useOv {
 		tls.VerifSetOverride(scfg, ov)
 	}
 	ccfg := &tls.Config{ServerName: s.SNI, RootCAs: pk.Pool, OmitEmptyPsk: s.Omit}
+	switch s.ClientAlps {
+	case "has":
+		ccfg.ApplicationSettings = map[string][]byte{"h2": []byte("CLNT"), "http/1.1": []byte("CLN1")}
+	case "lacks":
+		ccfg.ApplicationSettings = map[string][]byte{"zz": []byte("X")}
+	case "empty":
+		ccfg.ApplicationSettings = map[string][]byte{}
+	}
 	var ekm []hlib.EKMReq
 	rnd := hlib.NewRand(int64(s.Sc))
 	for i := 0; i < s.EKM; i++ {
@@ -265,6 +315,8 @@ func runNego(s negoScn, rawScn json.RawMessage, pk *hlib.PKI, certs map[string]t
 	} else {
 		res["hsraw"] = []int{}
 	}
+	res["peer_alps"] = hlib.Ints(r.CS.PeerApplicationSettings)
+	res["client_ee"] = hlib.Ints(ov.ClientEE)
 	ce, se := []any{}, []any{}
 	for _, b := range r.CEKM {
 		ce = append(ce, hlib.Ints(b))
